@@ -13,6 +13,22 @@ class RegConcCheck(PropCheck):
         n = self.n_quick if tier == "quick" else self.n_thorough
         scenarios = [rc.gen_scenario(rng, self.profile) for _ in range(n)]
         results = rc.run_many(scenarios)
+        # search for a failing input (DESIGN 4.1): when the step trace no longer matches the model but
+        # the property monitor has not fired, re-run the disagreeing scenario shapes under many more
+        # schedules (each step is a scheduling point, so windows are wide) before giving up
+        def differs(r):
+            return core.first_diff(r["model"] + [r["model_end"]], r["impl"] + [r["status"]]) is not None
+        def violates(r):
+            return bool(self.problems(r))
+        if any(differs(r) for r in results) and not any(violates(r) for r in results):
+            shapes = [r["scenario"] for r in results if differs(r)][:40]
+            extra = []
+            for k in range(2000 if tier == "quick" else 20000):
+                sc = [l for l in shapes[k % len(shapes)] if not l.startswith("seed")]
+                extra.append(sc[:-1] + ["seed %d" % rng.randint(1, 2**31)] + sc[-1:])
+            more = rc.run_many(extra)
+            results += more
+            self.searched_extra = len(more)
         failures, dist, distinct, nontrivial, steps = [], {}, set(), 0, 0
         for r in results:
             steps += len(r["impl"])
@@ -26,10 +42,9 @@ class RegConcCheck(PropCheck):
                 w = l.split()
                 k = w[2] if w[1] == "H" else w[1]
                 dist[k] = dist.get(k, 0) + 1
-            probs = rc.monitors(r["scenario"], r["impl"])
             d = core.first_diff(r["model"] + [r["model_end"]], r["impl"] + [r["status"]])
             payload = {"scenario": r["scenario"], "schedule": r["schedule"], "impl": r["impl"], "model": r["model"]}
-            mine = probs.get(self.pid, [])
+            mine = self.problems(r)
             if mine:
                 failures.append({"kind": "violation", "key": "%s:rc:%s" % (self.pid, core.digest(mine[0].split(":")[-1][:50])),
                                  "what": "registry schedule (%d steps): %s" % (len(r["schedule"]), mine[0]), "payload": payload})
@@ -46,10 +61,16 @@ class RegConcCheck(PropCheck):
                 "traces_validated_against_impl": len(results), "steps_compared": steps, "distribution": dist,
                 "failures": list(uniq.values())}
 
+    def problems(self, r):
+        probs = rc.monitors(r["scenario"], r["impl"]).get(self.pid, [])
+        if self.pid == "C18" and not r["status"].startswith("END done"):
+            probs = probs + ["the scenario did not run to completion: %s — mutators wait for each other although every delivery has finished" % r["status"]]
+        return probs
+
     def replay(self, payload):
         sc = [l for l in payload["scenario"] if not l.startswith("seed")] + ["schedule " + " ".join(payload["schedule"])]
         r = rc.run_one(sc)
-        probs = rc.monitors(r["scenario"], r["impl"]).get(self.pid, [])
+        probs = self.problems(r)
         d = core.first_diff(r["model"], r["impl"])
         return bool(probs) or d is not None, "\n".join(r["impl"] + [r["status"]] + probs + (["first difference to model: %s" % (d,)] if d else []))
 
@@ -80,3 +101,11 @@ class C04(RegConcCheck):
         "nobody outside the library changes the disposition of a signal after the library first read it (the crate's documented race otherwise)",
         "kernel: sigaction swaps atomically; a delivery enters the library's handler iff it is the disposition at that instant (simulated deliveries check the real disposition first)",
     ]
+
+
+class C18rc(RegConcCheck):
+    """registry-level part of C18: concurrent mutators (incl. first registrations and
+    unregister_signal) never deadlock"""
+    pid = "C18"
+    profile = "mutators"
+    n_quick, n_thorough = 200, 3000
